@@ -334,11 +334,27 @@ def c18(res, rng, tier):
         ok, seq = refcache[key]
         bad = None
         if lm in "124" and ok:
-            # without failures the hook must see exactly CPython's ids, in order
-            if len(calls) != len(seq):
+            # without failures the hook must see exactly CPython's ids, in order.  Where a Decode call of the stream
+            # fails although CPython loads it (the documented map-key error of the default mode - C09's subject, not
+            # C18's) the opcodes after the failure are never executed: the calls made must then be a prefix
+            bps = parts(body)
+            all_ok = len(bps) >= 1 and bps[-1] == "err eof" and all(x.startswith("ok") for x in bps[:-1])
+            if (len(calls) != len(seq)) if all_ok else (len(calls) > len(seq)):
                 bad = "PersistentLoad called %d times, the stream executes %d persistent-reference opcodes" % (len(calls), len(seq))
             else:
+                def has_mutable(x, depth=0):
+                    if isinstance(x, (list, dict, bytearray)): return True
+                    if depth > 50: return True
+                    if isinstance(x, tuple): return any(has_mutable(y, depth + 1) for y in x)
+                    for attr in ("pid", "args"):
+                        if hasattr(x, attr) and has_mutable(getattr(x, attr), depth + 1): return True
+                    return False
                 for c, pid in zip(calls, seq):
+                    # an id that holds a list / dict is compared by count only: CPython's object may have been extended
+                    # after the call (the reference keeps it by reference), and a list reached through the memo is the
+                    # recorded finding stale_list_view (C06) - neither is about the hook
+                    if has_mutable(pid):
+                        continue
                     try:
                         g = R.parse_go(c)
                         if not (isinstance(g, R.PRef) and R.equiv(g.pid, pid, pd == "1")):
